@@ -16,6 +16,7 @@ import InTotoModel.Driver.CodecProto
 import InTotoModel.Model.JsonText
 import InTotoModel.Model.AttestExt
 import InTotoModel.Model.Pem
+import InTotoModel.Model.Digest
 /-
   Executable model driver: one operation per input line, one canonical answer per line.
   Unknown or malformed operations answer `bad-op` (never a default).
@@ -171,6 +172,26 @@ def step (line : String) : String :=
     match bytesOfHex h with
     | some b => hexOfBytes (Sha256.hash b)
     | none => "bad-op"
+  | ["sha512", h] =>
+    match bytesOfHex h with
+    | some b => hexOfBytes (Sha512.hash b)
+    | none => "bad-op"
+  | "hashes" :: algs :: reads =>
+    -- hashes <alg,alg,..|-> <read>*   read = `D<hex>` (the bytes one `read` call returned; `D-` = none: end) | `E` (error)
+    -- answer: `err` | `ok <size> <alg>=<hex>*`
+    let algList : Option (List Digest.HashAlg) :=
+      if algs == "-" then some []
+      else (algs.splitOn ",").mapM fun a => if a == "sha256" then some Digest.HashAlg.sha256 else if a == "sha512" then some .sha512 else none
+    let rs : Option (List Md.ReadRes) := reads.mapM fun t =>
+      if t == "E" then some Md.ReadRes.error
+      else if t.startsWith "D" then (bytesOfHex (t.drop 1).toString).map Md.ReadRes.data
+      else none
+    match algList, rs with
+    | some al, some rs =>
+      match Digest.calcHashes al rs with
+      | none => "err"
+      | some (n, ds) => String.intercalate " " (s!"ok {n}" :: ds.map fun p => p.1.name ++ "=" ++ hexOfBytes p.2)
+    | _, _ => "bad-op"
   | ["hexdec", h] =>
     match strOfHex h with
     | some s => match KeyId.hexDecode s with | some b => "ok " ++ hexOfBytes b | none => "reject"
